@@ -601,7 +601,9 @@ def main():
         import json
         rp = json.load(open(chk.replay))
         corpus = [rp["case"]] if "case" in rp else corpus
-    nsh, nex = (6000, 3000) if thorough else (700, 350)
+    nsh, nex = (15000, 8000) if thorough else (700, 350)
+    if chk.replay:
+        nsh, nex = 0, 0
     cases = corpus + [gen_shuffle(rng) for _ in range(nsh)] + [gen_exits(rng, 30 if thorough else 16) for _ in range(nex)]
     wdir = os.path.join(chk.scratch.dir, "c12files")
     os.makedirs(wdir, exist_ok=True)
@@ -650,8 +652,9 @@ def main():
     chk.cov["c12"] = stats
     chk.cov["shuffle_cases"] = nsh
     chk.cov["exit_cases"] = nex
-    chk.sample({"case": cases[len(corpus)], "impl": ca[len(corpus)][:400]})
-    chk.sample({"case": cases[len(corpus) + nsh], "impl": ca[len(corpus) + nsh][:400]})
+    if nsh and nex:
+        chk.sample({"case": cases[len(corpus)], "impl": ca[len(corpus)][:400]})
+        chk.sample({"case": cases[len(corpus) + nsh], "impl": ca[len(corpus) + nsh][:400]})
 
     chk.finish(
         level="proof",
